@@ -408,6 +408,14 @@ func (p *parser) _recover() bool {
 				continue
 			}
 
+			// An Error that is still on the stack was never delivered to an
+			// action. The earliest one tells where the input first went wrong.
+			for i := len(p._stack) - 1; i >= depth; i-- {
+				if e, ok := p._stack[i].Sym.(Error); ok {
+					errSym = e
+				}
+			}
+
 			p._stack.Pop(len(p._stack) - depth)
 			p._qla = p._la
 			p._qlasym = p._lasym
